@@ -47,6 +47,11 @@ PROPS = {
                 "the reachable state space (state = representation + pairs) from 5 start literals over ~45 operations per state (14 sets, 7 "
                 "deletes, rest, up to 11 slices, 7 merges), quick: first 350 states, thorough: the whole space (fixpoint reached, ~1.9k states); "
                 "40 (quick) / 400 (thorough) seeded random histories of 20-60 operations over a 20-key universe, every prefix a case. "
+                "Mode I (60 / 800 random histories of 8-37 operations through grol source, every prefix a case; harness/cmd/harness/mapops_iter.go): the same "
+                "operations plus slices with bounds as written (negative = from the end, open upper bound, out of range, left > right = error), m.k = v and del(m.k); "
+                "universe of 25 keys: identifiers, \"\", \"a b\", 0 / 0.0 / -0.0 and 1 / 1.0 (one key each), 1.5, -1, 2^53+1 next to 2^53.0 and 2^53, NaN, true, false, nil, "
+                "[], [1], [1,[1.0]], a map; values incl. maps and arrays; observation: ITERATION ORDER three ways (keys(m), a `for kv := m` loop, repeated first/rest), m.k "
+                "for the identifier keys, and ==, != (both ways) against three perturbed copies (one value replaced, last pair dropped, one key added: never equal). "
                 "The statement compares every observation except the representation with the reference finite map (Spec) run on the same "
                 "history. non-trivial = non-empty history.",
         "trusted_base": COMMON_TB + ["modelled: object/object.go SmallMap/BigMap get, Get, Set, Delete, Len, First, Rest, Range, Append, mapElements, NewMapSize, "
